@@ -46,15 +46,31 @@ def install() -> None:
     def greedy_before(distribution: Any, remaining_power: float) -> Any:
         return (_snap_dist(distribution), remaining_power)
 
-    def greedy_after(result: Any, OLD: Any) -> bool:
-        COUNTS["greedy"] += 1
-        _stage["greedy_in"] = {"sets": OLD.pre[0], "left": OLD.pre[1]}
-        _stage["greedy_out"] = {"sets": _snap_dist(result[0]), "left": result[1]}
+    def greedy_after(distribution: Any, result: Any, OLD: Any) -> bool:
+        try:
+            # (returns (distribution, left-over); a variant that tops up in place and returns the left-over only is
+            # recorded just the same)
+            sets, left = (result[0], result[1]) if isinstance(result, tuple) else (distribution, result)
+            _stage["greedy_in"] = {"sets": OLD.pre[0], "left": OLD.pre[1]}
+            _stage["greedy_out"] = {"sets": _snap_dist(sets), "left": float(left)}
+            COUNTS["greedy"] += 1
+        except Exception:  # pylint: disable=broad-except  (a recording condition must never disturb the execution)
+            _stage.pop("greedy_in", None)
+            _stage.pop("greedy_out", None)
         return True
 
-    if hasattr(cls, "_greedy_distribute_remaining_power"):
-        cls._greedy_distribute_remaining_power = icontract.snapshot(greedy_before, name="pre")(
-            icontract.ensure(greedy_after, error=ContractBroken)(cls._greedy_distribute_remaining_power))
+    def hook(name: str, before: Any, after: Any) -> None:
+        """Attach the recording contract to the method of the class, or to a module-level function of that name."""
+        for owner in (cls, mod):
+            if hasattr(owner, name):
+                try:
+                    setattr(owner, name, icontract.snapshot(before, name="pre")(
+                        icontract.ensure(after, error=ContractBroken)(getattr(owner, name))))
+                except Exception:  # pylint: disable=broad-except  (other signature: no hook, the counters stay at zero)
+                    pass
+                return
+
+    hook("_greedy_distribute_remaining_power", greedy_before, greedy_after)
 
     # ---- S3: split over the inverters of one set
     def multi_before(distribution: Any, excl_bounds: Any, incl_bounds: Any) -> Any:
@@ -62,16 +78,18 @@ def install() -> None:
                 {_set_key(k): [int(i) for i in k] for k in distribution})
 
     def multi_after(result: Any, OLD: Any) -> bool:
-        COUNTS["multi"] += 1
-        out = result[0] if isinstance(result, tuple) else result
-        _stage["multi_in"] = {"sets": OLD.pre[0], "excl": {str(k): v for k, v in OLD.pre[1].items()},
-                              "incl": {str(k): v for k, v in OLD.pre[2].items()}, "order": OLD.pre[3]}
-        _stage["multi_out"] = {str(k): v for k, v in out.items()}
+        try:
+            out = result[0] if isinstance(result, tuple) else result
+            _stage["multi_in"] = {"sets": OLD.pre[0], "excl": {str(k): v for k, v in OLD.pre[1].items()},
+                                  "incl": {str(k): v for k, v in OLD.pre[2].items()}, "order": OLD.pre[3]}
+            _stage["multi_out"] = {str(k): v for k, v in out.items()}
+            COUNTS["multi"] += 1
+        except Exception:  # pylint: disable=broad-except
+            _stage.pop("multi_in", None)
+            _stage.pop("multi_out", None)
         return True
 
-    if hasattr(cls, "_distribute_multi_inverter_pairs"):
-        cls._distribute_multi_inverter_pairs = icontract.snapshot(multi_before, name="pre")(
-            icontract.ensure(multi_after, error=ContractBroken)(cls._distribute_multi_inverter_pairs))
+    hook("_distribute_multi_inverter_pairs", multi_before, multi_after)
 
     # ---- public function
     def public_after(power: float, components: Any, result: Any) -> bool:
